@@ -7,10 +7,16 @@ import sys
 
 from ..core import Prop, Violation, import_repo, show_bool
 
-ERR_TAGS = ["extUnknownModule", "extUnknownPort", "inputType", "inputIntegrity", "multipleSources", "noHandler",
+EDIT_TAGS = ["edit:setin", "edit:setout", "edit:delin", "edit:delout", "edit:addcap", "edit:delcap"]
+ERR_TAGS = ["attributeError", "extUnknownModule", "extUnknownPort", "inputType", "inputIntegrity", "multipleSources", "noHandler",
             "missingSource", "portsMismatch", "outputType", "outputIntegrity", "missingOutput", "wireType",
             "wireIntegrity", "multipleValues", "cannotResolve", "keyError", "handlerRaised"]
 
+
+FALSY = ["zero", "emptystr", "emptylist", "emptytuple", "false", "emptyset"]      # `handler(inputs) or {}` makes them {}
+MAPPINGS = ["userdict", "proxy", "odict"]                                          # not dicts, behave like dicts
+NONDICT = ["list", "tuple", "str", "int", "set", "gen"]                            # truthy, no .keys(): AttributeError
+MUTS = ["del", "add", "relabel", "clear"]
 
 EXC = ["RuntimeError", "TypeError", "ValueError", "KeyError", "AttributeError", "WiringError", "ZeroDivisionError"]
 
@@ -35,17 +41,20 @@ class C16(Prop):
     thorough_budget = 60000
     all_branches = (["mod:ok", "mod:moduleExists", "wire:ok", "wire:unknownOutputPort", "wire:unknownInputPort",
                      "wire:typeMismatch", "wire:integrityViolation", "rawwire", "handler:ret", "handler:retnone",
-                     "handler:raise", "handler:xraise", "handler:retd", "handler:retv", "handler:unknownModule", "ext", "caps",
+                     "handler:raise", "handler:xraise", "handler:retd", "handler:retv", "handler:unknownModule",
+                     "handler:retobj", "handler:reenter", "handler:mut"] + EDIT_TAGS + [ "ext", "caps",
                      "caps2", "capsmut", "speccaps", "share:ok", "share:moduleExists", "mod2:ok", "flow:ok", "flow:typeMismatch",
                      "flow:integrityViolation", "exec:ok"]
                     # the per-delivery "Multiple values" guard is unreachable since fix 56841f4 (two wires into one port and
                     # wire + external value are both rejected in the pre-flight); the model keeps the branch like the code does
                     + ["exec:" + t for t in ERR_TAGS if t != "multipleValues"])
     assumptions = [
-        "handlers return a dict (or None) of raw or TypedValue entries, or raise; they do not mutate the dict they are "
-        "given and do not call back into the executor",
-        "module specs are not mutated after add_module; wires are added through connect (a wire appended to "
-        "diagram.wires directly is covered only by the enforce_static_checks theorems)",
+        "handlers return a mapping (or a falsy value) of raw or TypedValue entries, a non-mapping (AttributeError "
+        "propagates), or raise; a handler that mutates the dict it is given only changes the report's copy of its own "
+        "inputs (compared as '?'); a handler that calls execute() again starts an independent run",
+        "wires are added through connect and module specs are left alone - or not: a wire appended to diagram.wires "
+        "directly and in-place edits of a registered ModuleSpec's dicts are covered by the theorems for arbitrary "
+        "diagrams (typed delivery then needs enforce_static_checks, which is the default)",
         "message texts are not compared; all WiringErrors are one observation",
     ]
     trusted_modelled = ["modelled, not verified: DiagramExecutor.execute as Operon.Wiring.execute "
@@ -136,7 +145,8 @@ class C16(Prop):
             r = rng.random()
             if not outs[m]:
                 if r < 0.3:
-                    lines.append(f"handler {m} " + rng.choice(["ret", "ret", "retnone"]))
+                    lines.append(f"handler {m} " + rng.choice(["ret", "ret", "retnone", "reenter", "mut " + rng.choice(MUTS),
+                                                               "retobj " + rng.choice(FALSY + MAPPINGS + NONDICT)]))
                 elif r < 0.32:
                     lines.append(f"handler {m} ret 0:raw:1")
                 continue
@@ -170,6 +180,13 @@ class C16(Prop):
             elif y < (0.02 if not wild else 0.1):
                 ent.append(f"{rng.randrange(3, 6)}:raw:0")   # extra key
             kind = xr if xr else rng.choice(["ret", "ret", "ret", "retd", "retv"])
+            z = rng.random()
+            if not xr and z < 0.04:          # not a dict: falsy value / other mapping / truthy non-mapping
+                kind = "retobj " + rng.choice(FALSY + MAPPINGS * 3 + NONDICT)
+            elif not xr and z < 0.08:        # calls execute() of the same executor while it runs
+                kind = "reenter"
+            elif not xr and z < 0.13:        # mutates the dict it is given
+                kind = "mut " + rng.choice(MUTS)
             lines.append(f"handler {m} {kind} " + " ".join(ent))
         if rng.random() < 0.02:
             lines.append("handler 9 ret")
@@ -193,6 +210,12 @@ class C16(Prop):
         if rng.random() < 0.01:
             lines.append("ext 9 0 raw 1")
         e = rng.random() < 0.5
+        if rng.random() < 0.12:
+            # the caller edits a registered spec in place: wires that connect accepted may stop being compatible / lose
+            # an end, ports appear and disappear, capability sets change
+            if rng.random() < 0.5:
+                lines.append(f"exec {show_bool(e)}")
+            lines += self._spec_edits(rng, names, ins, outs, wires)
         lines.append(f"exec {show_bool(e)}")
         lines.append(f"exec {show_bool(not e)}")
         if rng.random() < 0.15:
@@ -205,6 +228,28 @@ class C16(Prop):
         if rng.random() < 0.2:
             lines.append(f"flow {rng.randrange(nD)} {rng.randrange(nI)} {rng.randrange(nD)} {rng.randrange(nI)}")
         return {"lines": lines, "note": "wild" if wild else "mostly-valid"}
+
+    def _spec_edits(self, rng, names, ins, outs, wires):
+        nD, nI = max(self.nD, 1), max(self.nI, 1)
+        out = []
+        for _ in range(rng.choice([1, 1, 2, 3])):
+            x = rng.random()
+            w = rng.choice(wires) if wires else None
+            if w and x < 0.3:       # the destination port of a wire now asks for another label
+                out.append(f"setin {w[2]} {w[3]} {rng.randrange(nD)} {rng.randrange(nI)}")
+            elif w and x < 0.55:    # the source port of a wire now promises another label
+                out.append(f"setout {w[0]} {w[1]} {rng.randrange(nD)} {rng.randrange(nI)}")
+            elif x < 0.65:
+                m = rng.choice(names)
+                out.append(f"{rng.choice(['setin', 'setout'])} {m} {rng.randrange(4)} {rng.randrange(nD)} {rng.randrange(nI)}")
+            elif x < 0.8:
+                m = rng.choice(names)
+                side = rng.choice(["in", "out"])
+                ps = [q for q, _ in (ins if side == "in" else outs)[m]]
+                out.append(f"del{side} {m} {rng.choice(ps) if ps and rng.random() < 0.9 else rng.randrange(4)}")
+            else:
+                out.append(f"{rng.choice(['addcap', 'delcap'])} {rng.choice(names)} {rng.randrange(max(self.nC, 1))}")
+        return out
 
     def _growth_history(self, rng, names, outs):
         """the SAME executor is used again after the diagram was edited: modules added (with/without outputs, handler,
@@ -257,8 +302,10 @@ class C16(Prop):
             elif x < 0.85:
                 op = rng.choice(["sub", "sub", "add", "clear"])
                 out.append(f"capsmut {rng.choice([1, 1, 2])} {op} {cs() if op != 'clear' else ''}".strip())
-            elif x < 0.93:
+            elif x < 0.89:
                 out.append(f"speccaps {rng.choice(names)}")
+            elif x < 0.95:
+                out.append(f"{rng.choice(['addcap', 'delcap'])} {rng.choice(names)} {rng.randrange(max(self.nC, 1))}")
             else:
                 out.append(self._mod_line(rng.choice([7, 8]), [], [], rng.sample(range(self.nC), rng.choice([0, 1, 2])) if self.nC else []).replace("mod ", "mod2 ", 1))
         out += ["caps", "caps2"]
@@ -270,7 +317,9 @@ class C16(Prop):
                 # malformed stream
                 yield {"lines": [rng.choice(["exec 1", "caps", "wire 0 0 1 0", "handler 0 ret", "ext 0 0 raw 1",
                                              "mod 0 I O C", "rawwire 0 0 0 0", "exec 0", "mod 0 I 0:0:0 O 0:0:0 C",
-                                             "wire 0 0 0 0", "handler 0 ret 0:raw:3"])
+                                             "wire 0 0 0 0", "handler 0 ret 0:raw:3", "setin 0 0 0 0", "delin 0 0",
+                                             "addcap 0 1", "handler 0 retobj list", "handler 0 mut del", "handler 0 reenter",
+                                             "handler 0 retobj nothing", "setout 0 0 0 1", "delout 0 0"])
                                  for _ in range(rng.randrange(1, 7))], "note": "malformed"}
             else:
                 yield self._gen_case(rng, wild=rng.random() < 0.3)
@@ -369,6 +418,50 @@ class C16(Prop):
         spaces.append({"name": "chain of three modules in every dict order, every non-empty subset of the wired ports also "
                                "given an external value (two sources), sink with/without handler, each enforce setting",
                        "cases": cases})
+        # H: an accepted wire 0 -> 1, then one in-place edit of a registered spec, then execute
+        edits = ["setin 1 0 0 2", "setin 1 0 1 1", "setin 1 0 0 0", "setout 0 0 0 0", "setout 0 0 1 1", "setout 0 0 0 2",
+                 "delin 1 0", "delout 0 0", "setin 1 1 0 0", "setout 0 1 0 0", "setin 0 0 0 0", "addcap 0 3", "delcap 0 0",
+                 "delcap 1 1"]
+        cases = []
+        for ed in edits:
+            for ent in ("0:raw:3", "0:typed:0:1:3", "0:typed:0:0:3", "0:typed:0:2:3", "0:typed:1:1:3"):
+                for enf in ("1", "0", "d"):
+                    cases.append({"lines": ["mod 0 I O 0:0:1 C 0", "mod 1 I 0:0:1 O C 1", "wire 0 0 1 0",
+                                            f"handler 0 ret {ent}", "handler 1 ret", f"exec {enf}", ed, f"exec {enf}", "caps",
+                                            "speccaps 0", "speccaps 1"],
+                                  "note": "in-place edit of a registered spec"})
+        for seq in itertools.product(["share 0", "addcap 0 3", "delcap 0 0", "caps2", "caps", "mod2 0 I O C 2"], repeat=3):
+            cases.append({"lines": ["mod 0 I O C 0", "mod 1 I O C 1"] + list(seq) + ["caps", "caps2", "speccaps 0"],
+                          "note": "capability edits of a spec object shared by two diagrams"})
+        spaces.append({"name": "accepted wire, then one in-place edit of a registered ModuleSpec (port relabelled / retyped / "
+                               "deleted / added on either end, capability added / removed), every handler labelling, each "
+                               "enforce setting; capability edits of a spec shared by two diagrams (every sequence of 3 steps)",
+                       "cases": cases})
+        # I: handler results that are not dicts, handlers that re-enter execute(), handlers that mutate their input dict
+        cases = []
+        chain = ["mod 2 I 0:0:0 O C", "mod 1 I 0:0:1 O 0:0:1 C 1", "mod 0 I O 0:0:1 C 0", "wire 0 0 1 0", "wire 1 0 2 0"]
+        for kind in FALSY + MAPPINGS + NONDICT:
+            for tgt in (0, 1, 2):
+                hs = {0: "handler 0 ret 0:raw:4", 1: "handler 1 ret 0:raw:5", 2: "handler 2 ret"}
+                hs[tgt] = f"handler {tgt} retobj {kind}" + ("" if tgt == 2 else f" 0:raw:{4 + tgt}")
+                cases.append({"lines": chain + [hs[0], hs[1], hs[2], "exec 1", "exec 0"], "note": "handler result is not a dict"})
+        for k in range(1, 8):
+            hs = [f"handler {m} {'reenter' if k >> m & 1 else 'ret'}" + ("" if m == 2 else f" 0:raw:{4 + m}") for m in range(3)]
+            for tail in (["exec 1", "exec d"], ["handler 1 xraise ValueError 1 once 1 0:raw:5", "exec 1"],
+                         ["handler 1 ret 0:typed:0:2:5", "exec 0"], ["ext 2 0 raw 1", "exec 1"]):
+                if tail[0].startswith("handler 1") and k >> 1 & 1:
+                    continue
+                cases.append({"lines": chain + hs + tail, "note": "handler re-enters execute()"})
+        for mk in MUTS:
+            for tgt in (1, 2):
+                hs = {0: "handler 0 ret 0:raw:4", 1: "handler 1 ret 0:raw:5", 2: "handler 2 ret"}
+                hs[tgt] = f"handler {tgt} mut {mk}" + ("" if tgt == 2 else " 0:raw:5")
+                cases.append({"lines": chain + [hs[0], hs[1], hs[2], "exec 1", "exec 0", "exec 1"],
+                              "note": "handler mutates the dict it is given"})
+        spaces.append({"name": "chain of three modules: every kind of non-dict handler result (6 falsy, 3 other mappings, 6 "
+                               "truthy non-mappings) on each module; every non-empty set of handlers re-entering execute() "
+                               "(plain, with a raising / mislabelling neighbour, with a doubly fed port); every in-place "
+                               "mutation of the input dict on the inner and the sink module", "cases": cases})
         # D: a source module (no inputs) and a module with an input, each with every raising adversary
         cases = []
         for cls in EXC:
@@ -466,24 +559,56 @@ class C16(Prop):
 
         excs = {"WiringError": W.WiringError}
 
-        def mk_handler(n, kind, entries, fail=None, sig="1"):
+        depth = [0]                  # 1 while a re-entering handler runs its inner execute()
+        inner_calls: list = []
+        inner_stat: list = []        # outcome of each inner execute() of the current outer execute()
+        cur: dict = {}               # arguments of the execute() in progress
+        mut_mods: set = set()
+
+        def mk_handler(n, kind, entries, fail=None, sig="1", obj=None, mut=None):
             def body(inputs):
-                inputs = inputs or {}
-                snap = {unm(p): self._tv(tv) for p, tv in inputs.items()}
-                calls.append((n, snap))
-                if len(calls) > 200:
+                real = inputs if inputs is not None else {}
+                snap = {unm(p): self._tv(tv) for p, tv in real.items()}
+                log = calls if depth[0] == 0 else inner_calls
+                log.append((n, snap))
+                if len(log) > 200:
                     raise Runaway()
                 if kind == "raise":
                     raise RuntimeError("handler")
                 if fail is not None:
                     cls, msg, mode = fail
-                    nth = sum(1 for m, _ in calls if m == n)      # invocations of this handler in this execute()
+                    nth = sum(1 for m, _ in log if m == n)      # invocations of this handler in this execute()
                     if mode == "always" or nth == 1:
                         c = excs.get(cls) or getattr(__import__("builtins"), cls)
                         raise c("boom") if msg else c()
                 if kind == "retnone":
                     return None
-                s = sum(tv.value for tv in inputs.values())
+                s = sum(tv.value for tv in real.values())
+                if kind == "reenter" and depth[0] == 0:
+                    depth[0] = 1
+                    del inner_calls[:]
+                    try:
+                        a = {k: dict(v) for k, v in cur["ext"].items()} or None
+                        if cur["enforce"] is None:
+                            ex.execute(a)
+                        else:
+                            ex.execute(a, enforce_static_checks=cur["enforce"])
+                        inner_stat.append("ok")
+                    except Exception as e:
+                        inner_stat.append(self._exc(e))
+                    finally:
+                        depth[0] = 0
+                if mut is not None and real:
+                    k0 = next(iter(real))
+                    if mut == "del":
+                        del real[k0]
+                    elif mut == "relabel":
+                        v0 = real[k0]
+                        real[k0] = R.TypedValue(self.DT[(self.dti.get(v0.data_type, 0) + 1) % self.nD], self.IL[0], 999)
+                    elif mut == "clear":
+                        real.clear()
+                if mut == "add":
+                    real["p99"] = R.TypedValue(self.DT[0], self.IL[0], 0)
                 out = {}
                 for (p, v) in entries:
                     if pname(p) in out:
@@ -492,7 +617,15 @@ class C16(Prop):
                         out[pname(p)] = (3 * s + v) % 1000
                     else:
                         out[pname(p)] = R.TypedValue(v.data_type, v.integrity, (3 * s + v.value) % 1000)
-                return out
+                if obj is None:
+                    return out
+                import collections
+                import types
+                return {"zero": 0, "emptystr": "", "emptylist": [], "emptytuple": (), "false": False, "emptyset": set(),
+                        "userdict": collections.UserDict(out), "proxy": types.MappingProxyType(out),
+                        "odict": collections.OrderedDict(out), "list": list(out.items()) or [0],
+                        "tuple": tuple(out.items()) or (0,), "str": "p0", "int": 7, "set": {1},
+                        "gen": (z for z in [1])}[obj]
             if sig == "d":
                 def h(inputs=None):
                     return body(inputs)
@@ -536,25 +669,54 @@ class C16(Prop):
                     entries = []
                     fail, sig = None, "1"
                     rest_h = t[3:]
+                    obj = mut = None
                     if kind == "xraise":
                         if t[3] not in EXC or t[5] not in ("once", "always") or t[6] not in ("1", "d", "v"):
                             raise ValueError
                         fail, sig, rest_h = (t[3], t[4] == "1", t[5]), t[6], t[7:]
                     elif kind in ("retd", "retv"):
                         sig = kind[-1]
+                    elif kind == "retobj":
+                        if len(t) < 4 or t[3] not in FALSY + MAPPINGS + NONDICT:
+                            raise ValueError
+                        obj, rest_h = t[3], t[4:]
+                    elif kind == "mut":
+                        if len(t) < 4 or t[3] not in MUTS:
+                            raise ValueError
+                        mut, rest_h = t[3], t[4:]
                     for z in rest_h:
                         f = z.split(":")
                         if len(f) == 3 and f[1] == "raw":
                             entries.append((int(f[0]), int(f[2])))
                         elif len(f) == 5 and f[1] == "typed":
                             entries.append((int(f[0]), R.TypedValue(self.DT[int(f[2])], self.IL[int(f[3])], int(f[4]))))
-                    if kind not in ("raise", "retnone"):
+                    if kind not in ("raise", "retnone", "reenter"):
                         kind = "ret"
                     try:
-                        ex.register_module(mname(n), mk_handler(n, kind, entries, fail, sig))
+                        ex.register_module(mname(n), mk_handler(n, kind, entries, fail, sig, obj, mut))
                         o = "ok"
+                        (mut_mods.add if mut else mut_mods.discard)(n)
                     except Exception as e:
                         o = self._exc(e)
+                elif op in ("setin", "setout") and len(t) == 5:
+                    spec = d.modules.get(mname(int(t[1])))
+                    if spec is None:
+                        raise ValueError
+                    (spec.inputs if op == "setin" else spec.outputs)[pname(int(t[2]))] = self._pt(int(t[3]), int(t[4]))
+                    o = "ok"
+                elif op in ("delin", "delout") and len(t) == 3:
+                    spec = d.modules.get(mname(int(t[1])))
+                    dd = None if spec is None else (spec.inputs if op == "delin" else spec.outputs)
+                    if dd is None or pname(int(t[2])) not in dd:
+                        raise ValueError
+                    del dd[pname(int(t[2]))]
+                    o = "ok"
+                elif op in ("addcap", "delcap") and len(t) == 3:
+                    spec = d.modules.get(mname(int(t[1])))
+                    if spec is None:
+                        raise ValueError
+                    (spec.capabilities.add if op == "addcap" else spec.capabilities.discard)(self.CAP[int(t[2])])
+                    o = "ok"
                 elif op == "ext":
                     v, rest = self._val(t[3:])
                     if rest:
@@ -563,15 +725,20 @@ class C16(Prop):
                     o = "ok"
                 elif op == "exec":
                     del calls[:]
+                    del inner_stat[:]
+                    depth[0] = 0
                     enforce = t[1] == "1"
                     extarg = {k: dict(v) for k, v in ext.items()} or None
+                    cur.update(ext={k: dict(v) for k, v in ext.items()}, enforce=None if t[1] == "d" else enforce)
                     if t[1] == "d":
                         kind, val = self._bounded(lambda: ex.execute(extarg))
                     else:
                         kind, val = self._bounded(lambda: ex.execute(extarg, enforce_static_checks=enforce))
                     cs = list(calls)
-                    x = {"calls": cs, "enforce": enforce}
+                    x = {"calls": cs, "enforce": enforce, "inner": list(inner_stat), "mut": set(mut_mods)}
                     cstr = "[" + ";".join(f"{n}({self._show_tvs(s)})" for n, s in cs) + "]"
+                    if inner_stat:
+                        cstr += " inner=[" + ";".join(inner_stat) + "]"
                     if kind == "hang":
                         x["status"] = "hang"
                         o = "hang"
@@ -584,8 +751,13 @@ class C16(Prop):
                         mods = [(unm(m), {unm(p): self._tv(v) for p, v in me.inputs.items()},
                                  {unm(p): self._tv(v) for p, v in me.outputs.items()}) for m, me in rep.modules.items()]
                         x.update(status="ok", order=order, mods=mods)
+                        istr = ""
+                        if inner_stat:
+                            cstr, istr = cstr.split(" inner=")
+                            istr = " inner=" + istr
                         o = (f"ok order=[{','.join(map(str, order))}] calls={cstr} mods=["
-                             + ";".join(f"{m}<{self._show_tvs(i)}|{self._show_tvs(oo)}>" for m, i, oo in mods) + "]")
+                             + ";".join(f"{m}<{'?' if m in mut_mods else self._show_tvs(i)}|{self._show_tvs(oo)}>"
+                                        for m, i, oo in mods) + "]" + istr)
                 elif op in ("caps", "caps2") and len(t) == 1:
                     try:
                         r = (d if op == "caps" else d2).required_capabilities()
@@ -665,6 +837,8 @@ class C16(Prop):
         wires: list = []         # (a, p, b, q, via_connect)
         handlers: dict = {}      # name -> ("raise" | "retnone" | "ret", [(port, None | (dt, il))])
         ext: dict = {}           # (m, p) -> None (raw) | (dt, il)
+        shared2: set = set()     # modules whose spec OBJECT is also in the second diagram
+        mutset: set = set()      # modules whose handler mutates the dict it is given
         for idx, (line, o) in enumerate(zip(case["lines"], obs)):
             t = line.split()
             if o == "bad-op":
@@ -678,6 +852,7 @@ class C16(Prop):
             elif op == "share":
                 if o == "ok" and int(t[1]) in mods:
                     mods2[int(t[1])] = frozenset(mods[int(t[1])][2])
+                    shared2.add(int(t[1]))
                 elif o not in ("ok", "raise:WiringError"):
                     V("only_wiring_error", "ok or WiringError from add_module", o, idx)
             elif op == "caps2":
@@ -713,10 +888,32 @@ class C16(Prop):
             elif op == "rawwire":
                 a, p, b, q = map(int, t[1:5])
                 wires.append((a, p, b, q, False))
+            elif op in ("setin", "setout", "delin", "delout", "addcap", "delcap"):
+                n = int(t[1])
+                if o == "ok" and n in mods:
+                    i_, o_, c_ = dict(mods[n][0]), dict(mods[n][1]), set(mods[n][2])
+                    if op == "setin":
+                        i_[int(t[2])] = (int(t[3]), int(t[4]))
+                    elif op == "setout":
+                        o_[int(t[2])] = (int(t[3]), int(t[4]))
+                    elif op == "delin":
+                        i_.pop(int(t[2]), None)
+                    elif op == "delout":
+                        o_.pop(int(t[2]), None)
+                    elif op == "addcap":
+                        c_.add(int(t[2]))
+                    else:
+                        c_.discard(int(t[2]))
+                    mods[n] = (i_, o_, frozenset(c_))
+                    if n in shared2:                       # one ModuleSpec object registered in both diagrams
+                        mods2[n] = frozenset(c_)
             elif op == "handler":
                 if o == "ok":
                     ent = []
-                    for z in (t[7:] if t[2] == "xraise" else t[3:]):
+                    mutset.discard(int(t[1]))
+                    if t[2] == "mut":
+                        mutset.add(int(t[1]))
+                    for z in (t[7:] if t[2] == "xraise" else t[4:] if t[2] in ("retobj", "mut") else t[3:]):
                         f = z.split(":")
                         if len(f) == 3 and f[1] == "raw":
                             ent.append((int(f[0]), None))
@@ -727,6 +924,10 @@ class C16(Prop):
                         first.setdefault(p, v)
                     if t[2] == "xraise":
                         handlers[int(t[1])] = ("raise", first, t[3])
+                    elif t[2] == "retobj" and t[3] in NONDICT:
+                        handlers[int(t[1])] = ("nondict", {}, "AttributeError")
+                    elif t[2] == "retobj" and t[3] in FALSY:
+                        handlers[int(t[1])] = ("ret", {}, "RuntimeError")
                     else:
                         handlers[int(t[1])] = (t[2] if t[2] in ("raise", "retnone") else "ret", first, "RuntimeError")
             elif op == "ext":
@@ -751,10 +952,10 @@ class C16(Prop):
                     V("label_guard_" + op, want, o, idx)
             elif op == "exec":
                 # "d" = default argument: the text promises nothing about wires that bypassed connect then
-                self._oracle_exec(V, idx, extra[idx], None if t[1] == "d" else t[1] == "1", mods, wires, handlers, ext)
+                self._oracle_exec(V, idx, extra[idx], None if t[1] == "d" else t[1] == "1", mods, wires, handlers, ext, mutset)
         return out
 
-    def _oracle_exec(self, V, idx, x, enforce, mods, wires, handlers, ext):
+    def _oracle_exec(self, V, idx, x, enforce, mods, wires, handlers, ext, mutset=frozenset()):
         st = x["status"]
         calls = x["calls"]
         # what the property text calls unschedulable
@@ -788,9 +989,11 @@ class C16(Prop):
         cyclic = seen < len(mods)
         unsched = bool(missing or dup or nohandler or cyclic)
         # wires that were not vetted by connect: dangling ends; with enforcement off nothing is promised for them
-        dangling = [w for w in wires if not w[4] and (w[0] not in mods or w[2] not in mods or w[1] not in mods[w[0]][1]
-                                                        or w[3] not in mods[w[2]][0])]
-        unvetted_bad = [w for w in wires if not w[4] and w not in dangling and not (
+        # (judged on the declarations as they are NOW: a wire that connect accepted may have lost its ports or its
+        # compatibility through an in-place edit of a spec)
+        dangling = [w for w in wires if (w[0] not in mods or w[2] not in mods or w[1] not in mods[w[0]][1]
+                                         or w[3] not in mods[w[2]][0])]
+        unvetted_bad = [w for w in wires if w not in dangling and not (
             mods[w[0]][1][w[1]][0] == mods[w[2]][0][w[3]][0] and mods[w[0]][1][w[1]][1] >= mods[w[2]][0][w[3]][1])]
         accepted_diagram = not dangling and (enforce is True or not unvetted_bad)
 
@@ -840,7 +1043,8 @@ class C16(Prop):
             pos = {m: i for i, m in enumerate(order)}
             rec = {m: (i, o) for m, i, o in recs}
             for m, (i, o) in rec.items():
-                typed_ok(m, i, "delivered_values_typed")
+                if m not in mutset:          # a handler that rewrote its own dict rewrote the report's copy of it
+                    typed_ok(m, i, "delivered_values_typed")
                 spec = mods.get(m)
                 if spec is None:
                     continue
@@ -850,6 +1054,9 @@ class C16(Prop):
                     if p in spec[1] and (dt, il) != spec[1][p]:
                         V("mislabelled_output_rejected", f"output {m}.{p} labelled {spec[1][p]}", (dt, il), idx)
                 h = handlers.get(m)
+                if h and h[0] == "nondict" and spec[1]:
+                    V("mislabelled_output_rejected", f"an error: handler of {m} returned no mapping for outputs "
+                      f"{sorted(spec[1])}", "execute returned a report", idx)
                 if h and h[0] == "ret":
                     for p, lab in h[1].items():
                         if lab is not None and p in spec[1] and lab != spec[1][p]:
@@ -859,19 +1066,20 @@ class C16(Prop):
                 if a in pos and b in pos:
                     if not pos[a] < pos[b]:
                         V("after_all_feeders", f"{a} before {b}", order, idx)
-                    if a in rec and b in rec and rec[a][1].get(p) != rec[b][0].get(q):
+                    if a in rec and b in rec and b not in mutset and rec[a][1].get(p) != rec[b][0].get(q):
                         V("delivered_value_is_source_output", rec[a][1].get(p), rec[b][0].get(q), idx)
             return
         # the run raised
         allowed = {"raise:WiringError"}
-        if any(handlers.get(m, ("",))[0] == "raise" for m, _ in calls[-1:]):
-            allowed = {"raise:" + handlers[calls[-1][0]][2]}    # the handler's own exception propagates
+        if any(handlers.get(m, ("",))[0] in ("raise", "nondict") for m, _ in calls[-1:]):
+            # the handler's own exception propagates; a non-mapping result fails at `.keys()`
+            allowed = {"raise:" + handlers[calls[-1][0]][2]}
         if dangling:
             allowed.add("raise:KeyError")
         if st not in allowed:
             V("only_wiring_error", sorted(allowed), st, idx)
         # a diagram that can be scheduled, with honest handlers and valid external inputs, must run
-        honest = all(h[0] != "raise" and set(h[1]) == set(mods[m][1])
+        honest = all(h[0] not in ("raise", "nondict") and set(h[1]) == set(mods[m][1])
                      and all(lab is None or lab == mods[m][1][p] for p, lab in h[1].items())
                      for m, h in handlers.items() if m in mods)
         ext_ok = all(k in nsrc and (lab is None or (lab[0] == mods[k[0]][0][k[1]][0] and lab[1] >= mods[k[0]][0][k[1]][1]))
